@@ -1,0 +1,43 @@
+//go:build verif
+
+package core
+
+import "sync/atomic"
+
+// VerifPersist forces one flush of the write cache to the backing store. It is
+// what the 1s timer of Run does, exposed so that a harness can choose the flush
+// points itself.
+func (bc *Blockchain) VerifPersist() error {
+	_, err := bc.persist()
+	return err
+}
+
+// VerifPersistedHeight returns the height of the last flushed block.
+func (bc *Blockchain) VerifPersistedHeight() uint32 {
+	return atomic.LoadUint32(&bc.persistedHeight)
+}
+
+// VerifTryRunGC runs the garbage collection step Run performs after a flush.
+// oldPersisted is the persisted height before that flush.
+func (bc *Blockchain) VerifTryRunGC(oldPersisted uint32) {
+	bc.tryRunGC(oldPersisted)
+}
+
+// VerifRunNoTimer is Run without the periodic persist timer: it starts the
+// event dispatcher, waits for Close and then does the same final flush and
+// store close as Run.
+func (bc *Blockchain) VerifRunNoTimer() {
+	bc.isRunning.Store(true)
+	defer func() {
+		if _, err := bc.persist(); err != nil {
+			bc.log.Warn("failed to persist")
+		}
+		if err := bc.dao.Store.Close(); err != nil {
+			bc.log.Warn("failed to close db")
+		}
+		bc.isRunning.Store(false)
+		close(bc.runToExitCh)
+	}()
+	go bc.notificationDispatcher()
+	<-bc.stopCh
+}
